@@ -51,13 +51,14 @@ mod verif_kani_contracts {
         let mut h = any_history();
         let (old_last, old_mask) = (h.last_tick, h.mask);
         let t = RepliconTick::new(kani::any());
+        // requires (property C12): the confirmed tick is less than half the counter range away from the last one
+        kani::assume((t.get().wrapping_sub(old_last.get()) as i32).unsigned_abs() < (1 << 30));
         h.confirm(t);
         assert!(h.mask & 1 == 1);
         assert!(h.last_tick == if t > old_last { t } else { old_last });
         let last = h.last_tick;
         let p = RepliconTick::new(kani::any());
         kani::assume((p.get().wrapping_sub(old_last.get()) as i32).unsigned_abs() < (1 << 30));
-        kani::assume((t.get().wrapping_sub(old_last.get()) as i32).unsigned_abs() < (1 << 30));
         let was = in_set(old_last, old_mask, p);
         let expect = p <= last && (last - p >= 64 || p == t || was);
         assert!(h.contains(p) == expect);
